@@ -71,6 +71,7 @@ struct St {
     count: u64,
     fault_at: u64,
     fault_kind: u8,
+    fault_variant: String,
     ctx: Option<Context>,
 }
 
@@ -98,10 +99,25 @@ fn panic_json(p: &(String, String)) -> String {
     format!("{{\"panic\":{},\"loc\":{}}}", q(&p.0), q(&p.1))
 }
 
-fn fab_err<T>() -> EResult<T> {
-    match Value::None.bool() {
-        Err(e) => Err(e),
-        Ok(_) => unreachable!(),
+/// Fabricates an `Err` of the crate's (unnameable) error type; `variant` selects which one.
+fn fab_err(variant: &str) -> EResult<Value> {
+    fn conv<T>(r: EResult<T>) -> EResult<Value> {
+        match r {
+            Err(e) => Err(e),
+            Ok(_) => Ok(Value::None),
+        }
+    }
+    match variant {
+        "ShouldBeNumber" => conv(Value::None.decimal()),
+        "ShouldBeString" => conv(Value::None.string()),
+        "ShouldBeList" => conv(Value::None.list()),
+        "InvalidInteger" => conv(Value::None.integer()),
+        "InvalidFloat" => conv(Value::None.float()),
+        "ParamInvalid" => execute("min()", Context::new()),
+        "DivideByZero" => execute("1/0", Context::new()),
+        "FnNotRegistered" => execute("no_such_function_zz()", Context::new()),
+        "NotReference" => execute("1 = 2", Context::new()),
+        _ => conv(Value::None.bool()),
     }
 }
 
@@ -160,7 +176,11 @@ fn run_beh(b: &Beh, kind: &'static str, name: &str, args: Vec<Value>) -> EResult
         (n, f)
     });
     if fault == 1 {
-        return fab_err();
+        let variant = ST.with(|st| st.borrow().fault_variant.clone());
+        return match fab_err(&variant) {
+            Err(e) => Err(e),
+            Ok(_) => fab_err(""),
+        };
     }
     if fault == 2 {
         panic!("vexec-injected-panic#{}", n);
@@ -307,6 +327,9 @@ pub struct Interp {
     ctxs: HashMap<i64, Context>,
     asts: HashMap<i64, ExprAST<'static>>,
     pub lines: Option<Vec<String>>,
+    /// program text is copied into this one reused buffer before every parse/exec step, the way an
+    /// application reuses a line buffer: consecutive programs then live at the same address
+    buf: String,
 }
 
 fn leak(s: &str) -> &'static str {
@@ -319,6 +342,7 @@ impl Interp {
             ctxs: HashMap::new(),
             asts: HashMap::new(),
             lines: if collect { Some(Vec::new()) } else { None },
+            buf: String::with_capacity(4096),
         }
     }
 
@@ -451,6 +475,7 @@ impl Interp {
                 "panic" => 2,
                 _ => 0,
             };
+            st.fault_variant = j.get("fault").get("variant").str().to_string();
             st.ctx = Some(ctx_handle(c));
         });
     }
@@ -506,7 +531,10 @@ impl Interp {
                 }
             }
             "parse" => {
-                let text = j.get("text").str();
+                let mut buf = std::mem::take(&mut self.buf);
+                buf.clear();
+                buf.push_str(j.get("text").str());
+                let text: &str = &buf;
                 let want = j.get("want").str();
                 match catch(|| parse_expression(text)) {
                     Ok(Ok(ast)) => {
@@ -526,9 +554,13 @@ impl Interp {
                         let _ = write!(out, ",\"p\":\"panic\",\"ppanic\":{}", panic_json(&p));
                     }
                 }
+                self.buf = buf;
             }
             "exec" => {
-                let text = j.get("text").str();
+                let mut buf = std::mem::take(&mut self.buf);
+                buf.clear();
+                buf.push_str(j.get("text").str());
+                let text: &str = &buf;
                 let want = j.get("want").str();
                 let c = self.ctx(j.get("ctx"));
                 Self::begin_exec(j, &c);
@@ -558,6 +590,7 @@ impl Interp {
                 if !j.get("ctx").is_null() && !j.get("nosnap").bool() {
                     Self::snapshot(&c, &mut out);
                 }
+                self.buf = buf;
             }
             "exec_ast" => {
                 let c = self.ctx(j.get("ctx"));
